@@ -232,6 +232,9 @@ parse_table(const char *be, char *as, char *es, bool keep)
             if (is_mem[na]) { a->read = reg_mem_read; a->write = reg_mem_write; a->mem = store[na]; }
             else { a->read = strchr(kind, 'R') ? cb_read : NULL; a->write = strchr(kind, 'W') ? cb_write : NULL; a->mem = NULL; }
             reenter[na] = strchr(kind, 'X') != NULL;
+            /* what initialisation has to establish is not what a static initialiser happens to leave: the record of an area's
+             * registers starts as left-over from some earlier table (an area array that is reused, or one on the stack) */
+            memset(&a->entry, 0xa5, sizeof a->entry);
             na++;
         }
     }
